@@ -471,9 +471,17 @@ class VirtualOperator(abc.ABC):
         kwargs = {**keywords, **self.options}
 
         # build operator
-        if not (order1 or order2) or not issubclass(
-            self.OPERATOR, _operators.DiffOperator
-        ):
+        if not (order1 or order2):
+            return self.OPERATOR(*args, **kwargs)
+        if not issubclass(self.OPERATOR, _operators.DiffOperator):
+            # a derivative with respect to a variable of an operator that cannot be differentiated would silently
+            # miss this operator's contribution
+            requested = set(order1 or []) | {var for pair in (order2 or []) for var in pair}
+            invalid = requested & set(map(str, self.variables))
+            if invalid:
+                raise ValueError(
+                    f"Cannot differentiate {type(self).__name__} with respect to: {invalid}"
+                )
             return self.OPERATOR(*args, **kwargs)
 
         # build order1 and order2 dicts
